@@ -544,6 +544,31 @@ def run(repo: Repo, rep: Report, tier: str) -> None:
                               f"{missing15} set by the builders is not in this key: `(b > 0) : b` and `(b > 0) : 1` (copy the value / output a constant) get one key and are merged", kf.loc(r15))
     rep.analysed["C10-R15:fields set by the decider builders"] = {k: sorted(v) for k, v in setters.items()}
 
+    # ---------------- R18 --------------------------------------------------------------
+    rep.rule("C10-R18", "a value marked as not needed (a place() coordinate that was read as a constant) is dropped only if nothing that exists reads it: CSE may hand the marked "
+             "node to an identical expression that is read as a signal, and a named value can be both a coordinate and an operand — in _decide_materialization the "
+             "suppression flag never decides `should_materialize = False` by itself, the decision looks at the entry's consumers")
+    dm = repo.func("SignalAnalyzer._decide_materialization")
+    from .util import cguards as _cg18
+    n18 = 0
+    for st in walk_local(dm.node):
+        if isinstance(st, ast.Assign) and isinstance(st.targets[0], ast.Attribute) and st.targets[0].attr == "should_materialize":
+            gs = _cg18(dm, st)
+            if not any(pol and "'suppress_materialization'" in g for g, pol in gs):
+                continue
+            n18 += 1
+            unconditional = isinstance(st.value, ast.Constant) and st.value.value is False and not any("consumers" in g for g, _ in gs)
+            looks = "consumers" in norm(st.value) or any("consumers" in g for g, _ in gs)
+            if not unconditional and not looks and isinstance(st.value, ast.Call):
+                callee = repo.cls("SignalAnalyzer").methods.get(call_name(st.value))
+                looks = callee is not None and any(isinstance(x, ast.Attribute) and x.attr == "consumers" for x in ast.walk(callee.node))
+            if isinstance(st.value, ast.Constant) and st.value.value is True:
+                rep.ok("C10-R18", f"_decide_materialization: suppression decision #{n18}", "kept (user declaration)", dm.loc(st))
+                continue
+            rep.check(looks and not unconditional, "C10-R18", f"_decide_materialization: suppression decision #{n18} looks at the readers", "decided from the entry's consumers" if looks and not unconditional else
+                      "`should_materialize = False` on the flag alone: an identical expression merged into this node by CSE, or the same named value used as an operand, reads a signal that no combinator produces", dm.loc(st))
+    rep.floor("C10-R18", "suppression decisions", n18, 3)
+
 
 
 def thorough(repo: Repo, rep: Report) -> None:
@@ -714,4 +739,5 @@ def _unconditional_read(node: ast.AST, var: str, fld: str) -> bool:
     if isinstance(node, (ast.ListComp, ast.SetComp, ast.GeneratorExp, ast.DictComp, ast.Lambda)):
         return any(_unconditional_read(g.iter, var, fld) for g in getattr(node, "generators", [])[:1])
     return any(_unconditional_read(c, var, fld) for c in ast.iter_child_nodes(node))
+
 
